@@ -41,7 +41,7 @@ fn variant(rng: &mut Rng, base: usize, off: usize, fold_row: Option<&Vec<String>
     }
     if let Some(row) = fold_row { s.push(' '); s.push_str(rng.pick(row).as_str()); }
     // long labels (size limits are counted in characters after normalisation, if at all): same padding word for one base
-    if (base + off) % 5 == 0 { for _ in 0..160 { s.push_str(" ыы"); } }
+    if (base + off) % 5 == 0 { for _ in 0..280 { s.push_str(" ыы"); } }
     if rng.chance(1, 4) { s = format!(" {} ", s); }
     s
 }
